@@ -74,6 +74,7 @@ func profileConfig(p string, seed uint64) RunConfig {
 		if r.IntN(2) == 0 {
 			c.Driver = "empty"
 		}
+		c.AutoAnswer = r.IntN(2) == 0 // leave UPF-initiated requests outstanding in half the runs
 	case "C08":
 		c.NSMF = 2 + r.IntN(3)
 		if r.IntN(2) == 0 {
@@ -113,6 +114,12 @@ func profileConfig(p string, seed uint64) RunConfig {
 		c.Steps = 12 + r.IntN(40)
 		c.Oracles = []string{"C17"}
 		c.NoPeek = true
+		if r.IntN(6) == 0 {
+			// a slow data plane and short queues at shutdown time: ticks pile up
+			c.KernLatency = pick(r, 300, 700, 1200)
+			c.Steps = 10 + r.IntN(15)
+			c.Knobs = map[string]int{"EVENT_CHANNEL_LEN": pick(r, 1, 2, 4)}
+		}
 	case "C18":
 		c.Interpose = false
 		c.KernLatency = pick(r, 0, 1, 7, 40)
@@ -209,7 +216,7 @@ func newGen(s *Sim) *Gen {
 	case "C07":
 		g.mode = "wild"
 		g.perioOK = true
-		g.w = map[string]int{"hb": 2, "est": 6, "mod": 6, "del": 2, "raw": 24, "adv": 2, "krep": 2, "kbuf": 2, "reassoc": 1}
+		g.w = map[string]int{"hb": 2, "est": 6, "mod": 6, "del": 2, "raw": 24, "adv": 2, "krep": 3, "kbufnocp": 3, "reassoc": 1, "rawrsp": 6, "ans": 2}
 	}
 	if s.cfg.faultOn("n4") {
 		g.w["n4err"] = 2
@@ -800,7 +807,7 @@ func (g *Gen) one() (Action, bool) {
 		if g.s.cfg.Profile == "C13" || g.s.cfg.Profile == "C14" {
 			return Action{Op: "send", SMF: m.Idx, Msg: g.bufEst(m, slot)}, true
 		}
-		if g.s.cfg.Profile == "C15" || g.s.cfg.Profile == "C18" {
+		if g.s.cfg.Profile == "C15" || g.s.cfg.Profile == "C18" || (g.s.cfg.Profile == "C17" && g.s.cfg.KernLatency > 0) {
 			if g.mass > 0 {
 				return Action{Op: "send", SMF: m.Idx, Msg: g.perioEst(m, slot, 8, g.massPeriod)}, true
 			}
@@ -813,6 +820,8 @@ func (g *Gen) one() (Action, bool) {
 		return g.modURR()
 	case "raw":
 		return g.rawAction()
+	case "rawrsp":
+		return g.rawResponse()
 	case "rmpdr":
 		mm, sl, x := g.anyLive()
 		if x == nil {
